@@ -10,3 +10,8 @@ var Types map[string]func() any
 // Structs lists every exported struct type declared in pkg/kmsg's generated.go, api.go
 // and record.go (with or without a codec).
 var Structs []string
+
+// News maps a struct type name to a function returning (pointer to kmsg.New<Name>()'s
+// result, pointer to new(T) with Default() applied); NewPtrs does the same for
+// kmsg.NewPtr<Name>().
+var News, NewPtrs map[string]func() (any, any)
